@@ -174,6 +174,16 @@ func genCase(r *rand.Rand) *Case {
 		}
 		g.step(cur)
 	}
+	if r.Intn(25) == 0 {
+		// a malformed read format at the very end: whatever the answer is (the model
+		// leaves it open), it is an answer of the library, not a Go run-time fault
+		for i := range g.w.hs {
+			if g.w.hs[i].live() {
+				g.emit(Op{H: i, Op: "read", Fmts: []string{[]string{"", "*", "*z", "**"}[r.Intn(4)]}})
+				break
+			}
+		}
+	}
 	for i := range g.w.hs {
 		if g.w.hs[i].live() && r.Intn(10) != 0 {
 			g.emit(Op{H: i, Op: "close"})
